@@ -762,6 +762,36 @@ def check_consumers(facts, res):
                               "would be stored (or returned) under the key of the whole value" % (b.path, c.path, c.name), b.loc(t.line))
     if any(b.path.startswith("<filesystemadapter::") for b in facts.repo_bodies()):
         res.floor("S6", "io::Read / io::Write calls in the crate (directory backend compiled in)", n6, 4)
+    bs = backends(facts)
+    leaf = [b for b in bs if b.kind == "leaf"]
+    # S6b: no length-limiting adaptor between the stored bytes and the value handed back: `Read::take(n)` ends the stream after n bytes
+    # without an error, so a value longer than the limit comes back as a prefix of what was written
+    for b in bs:
+        for m in ("read_object",):
+            for body in b.reach(m):
+                for bi, t in body.calls():
+                    c = t.callee
+                    if c is not None and c.name == "take" and ("io::Read" in c.path or "io::Read" in (c.trait or "")):
+                        res.violation("S6", "%s|read-through-truncating-adaptor:take" % b.name(),
+                                      "%s reads the stored value through io::Read::take: a value longer than the limit is silently cut, read returns a "
+                                      "prefix of the first write" % body.path, body.loc(t.line))
+    # S2c: a persistent leaf lists what the store holds *now*: every successful return of the directory backend's list_objects passes
+    # through a read of the storage directory made by this very call (no listing served from a per-handle cache - another handle or a
+    # file synchroniser may have added items that change nothing the cache is validated by)
+    from ..common import pass_anchors, bypassing_returns
+    for b in leaf:
+        lb = b.methods.get("list_objects")
+        if lb is None:
+            continue
+        anchors = pass_anchors(facts, lb, lambda t: t.callee is not None and t.callee.name == "read_dir", depth=2)
+        if not anchors:
+            continue
+        byp, oks = bypassing_returns(lb, {min(anchors): anchors[min(anchors)]})
+        res.instance("S2", "%s::list_objects: every successful return passes through a read of the storage directory: %s" % (b.name(), not byp), lb.loc())
+        if byp:
+            res.violation("S2", "%s|listing-served-without-reading-the-store" % b.name(),
+                          "%s::list_objects can answer without reading the storage directory in this call (a cached listing): items stored through "
+                          "another handle, or copied in by a file synchroniser, are not listed" % b.name(), lb.loc())
 
 
 FIXTURE_EXPECT = ['unguarded-map', 'no-suffix-strip', 'ranged-read-shape']
